@@ -209,6 +209,8 @@ func c13(c *Check) {
 	exportLoopsComplete(c, "C13/export-loops-complete", expFns)
 	c.Rule("C13/export-collectors-never-stop", "a collecting callback handed to an iteration helper by a function reachable from ExportGenesis never returns the value with which the helper ends its iteration", 3)
 	collectorsNeverStop(c, "C13/export-collectors-never-stop", expFns)
+	c.Rule("C13/no-kept-address-of-a-loop-variable", "in the genesis validators, exporters and importers (all module packages) no address of a variable that is re-assigned by each iteration of a loop is kept beyond the iteration: a table built that way describes the last entry only", 10)
+	noRetainedLoopVarAddress(c, "C13/no-kept-address-of-a-loop-variable", fnsInPackages(c, "/x/", "/adapter/", "/app"))
 	c.Rule("C13/rvesting-parameters-exported-as-stored", "the reward-vesting module exports exactly the parameters it reads from its store (no canonicalising constructor in between: sdk.NewCoins would drop zero amounts and re-sort)", 2)
 	c.Spec("C13/rvesting-parameters-exported-as-stored", Macros{}, FnSpec{Fn: "x/rvesting/keeper.Keeper.ExportGenesis",
 		Returns: []Ret{{Label: "genesis of the stored params", Index: 0, Want: []string{"rvesting/types.NewGenesisState(rvesting/keeper.(Keeper).GetParams($0, $1))"}}}})
@@ -286,6 +288,26 @@ func tokenisationRule(c *Check, rule string, fams map[string][]*StoreWrite) {
 					c.Bad(rule, funcName(fn)+"/"+cs.Name+" on an iterator key", cs.Ins.Pos(), cs.Name+" removes every leading/trailing byte that occurs in its second argument (a cutset, not a prefix): binary components (heights) whose first bytes are among those characters are shortened and the entry is mis-parsed or skipped")
 				}
 			}
+		}
+		// an iterator key is matched against a computed prefix only if that prefix ends in the separator: "clients/eth"
+		// is also a prefix of "clients/ethereum/…"
+		for _, cs := range c.P.CallsInOwn(fn) {
+			if cs.Name != "strings.HasPrefix" && cs.Name != "bytes.HasPrefix" {
+				continue
+			}
+			a := c.P.ArgExprs(cs)
+			if len(a) != 2 || a[1].Op == "const" || !a[0].Contains(func(e *Expr) bool { return e.IsCall("types.Iterator.Key") }) {
+				continue
+			}
+			sh := c.P.ShapeExpr(a[1])
+			open := false
+			for _, alt := range shapeAlternatives(sh) {
+				if alt != "" && !strings.HasSuffix(alt, "/") && strings.HasSuffix(alt, "⟩") {
+					open = true
+				}
+			}
+			c.Req(!open, rule, funcName(fn)+"/"+cs.Name+" of an iterator key with a computed prefix", cs.Ins.Pos(), "prefix "+trunc(sh)+" ends in a separator or a literal",
+				"the iterator key is matched against the computed prefix "+trunc(sh)+", which ends in a variable component and not in the separator: a name that extends another one (eth / ethereum) matches the shorter one's prefix and its entries are mis-read or skipped")
 		}
 		for _, cs := range c.P.CallsInOwn(fn) {
 			if cs.Name != "strings.Split" && cs.Name != "strings.SplitN" && cs.Name != "bytes.Split" && cs.Name != "bytes.SplitN" {
@@ -545,4 +567,12 @@ func deref(t types.Type) types.Type {
 		return p.Elem()
 	}
 	return t
+}
+
+// shapeAlternatives splits a top-level ⟨alt:a‖b⟩ shape into its alternatives (a shape without alternatives is its own).
+func shapeAlternatives(sh string) []string {
+	if strings.HasPrefix(sh, "⟨alt:") && strings.HasSuffix(sh, "⟩") {
+		return strings.Split(strings.TrimSuffix(strings.TrimPrefix(sh, "⟨alt:"), "⟩"), "‖")
+	}
+	return []string{sh}
 }
